@@ -82,7 +82,7 @@ def gen_step(rng, shapes, ca):
 
 
 def generate(rng, tier):
-    n = 1500 if tier == "quick" else 30000
+    n = 1500 if tier == "quick" else 150000
     for _ in range(n):
         shapes, ca = gen_seq(rng)
         case = {"shapes": shapes, "ca": ca, "fam": rng.choice(["probe", "probe", "fits_sep", "probe_coupled"]),
